@@ -149,6 +149,37 @@ def run(ctx, res):
         if got != exp:
             res.violations.append({'key': None, 'sig': 'infer-e2e', 'what': 'datatype inference end to end (infer_sql_datatypes=%s, column types v=%s w=%s): only implementation %r, only expected %r'
                                    % (on, tv, tw, [x for x in got if x not in exp][:4], [x for x in exp if x not in got][:4]), 'replay': {'case': case, 'types': [tv, tw], 'on': on}})
+    # the same table and column names in two databases (one data-source section each) with different declared types: every section's
+    # literals get the datatype of its own database
+    for rep in range(ctx.scale(6, 40)):
+        ta, tb = ctx.rng.sample(['INTEGER', 'DOUBLE', 'BOOLEAN', 'DATE', 'TEXT', 'DECIMAL(10,2)'], 2)
+        c = mapcase.gen_shard_case(ctx.rng)
+        c['cfg']['nquads'] = False
+        for t in c['doc']:
+            t['classes'] = []
+            t['poms'] = [p for p in t['poms'] if p['objs'][0]['m']['k'] == 'ref'][:1]
+        c['doc'] = c['doc'][:2]; c['layout'] = [[[c['doc'][0]['id']]], [[c['doc'][1]['id']]]]
+        for s_ in c['sources']:
+            s_['kind'] = 'sqltable'
+        d = os.path.join(wd, 'infs%d' % rep); os.makedirs(d)
+        cfg = mapcase.materialise_layout(c, d, c['layout']).replace('[CONFIGURATION]\n', '[CONFIGURATION]\ninfer_sql_datatypes=yes\n')
+        r = ctx.pool.call('mat_set', config=cfg, cwd=d, catalogue={'m_A.db\x00people\x00name': ta, 'm_B.db\x00people\x00name': tb})
+        shutil.rmtree(d, ignore_errors=True)
+        res.evaluations += 1
+        res.count('infer-e2e:two-databases')
+        if not r.get('ok') or 'lines' not in (r.get('result') or {}):
+            res.disagreements.append({'what': 'inference over two databases: run failed %s' % str(r)[:300], 'replay': None}); continue
+        lkx = {t: dec_opt(m) for t, m in zip([ta, tb], model.run_many([['c20.lookup', ta], ['c20.lookup', tb]]))}
+        exp = []
+        for t, src, ty in zip(c['doc'], c['sources'], (ta, tb)):
+            for row in src['rows']:
+                if row[1] is None:
+                    continue
+                exp.append('<%s> <%sp/name> "%s"%s' % (t['subj']['v'].replace('{id}', row[0]), EXN, row[1], ('^^<%s>' % lkx[ty]) if lkx[ty] else ''))
+        got, exp = sorted(r['result']['lines']), sorted(set(exp))
+        if got != exp:
+            res.violations.append({'key': None, 'sig': 'infer-two-dbs', 'what': 'datatype inference over two databases holding the same table name (name: %s in A, %s in B): only implementation %r, only expected %r'
+                                   % (ta, tb, [x for x in got if x not in exp][:4], [x for x in exp if x not in got][:4]), 'replay': {'case': c, 'types': [ta, tb], 'on': True}})
 
 
 def replay(ctx, res, payload):
